@@ -635,6 +635,59 @@ func genHistCase(r *rand.Rand, idx int, thorough bool) *lpCase {
 	return c
 }
 
+// genDispatchCase: the same Data (and an Interest) sent with every kind of PIT token - of our own format naming each
+// existing thread, naming thread ids that do not exist (count, count+1, 0xffff), foreign formats (1..5, 7..32 bytes), none -
+// unfragmented and fragmented, to a peer with 1 or several forwarding threads.  Checked after every frame: deliveries on ALL
+// recording threads (exactly once; own-format token => only the named thread; invalid id => none).
+func genDispatchCase(r *rand.Rand, idx int) *lpCase {
+	nthreads := []int{1, 2, 3, 8}[idx%4]
+	c := &lpCase{id: fmt.Sprintf("disp%d", idx), kind: "c10-dispatch", nthreads: nthreads, local: idx%3 == 0, reasm: true}
+	setThreads(nthreads)
+	mtu := []int{128, 1500}[(idx/4)%2]
+	var toks [][]byte
+	for th := 0; th < nthreads; th++ {
+		toks = append(toks, []byte{byte(th >> 8), byte(th), byte(r.Intn(256)), byte(r.Intn(256)), 7, 7})
+	}
+	for _, th := range []int{nthreads, nthreads + 1, 255, 256, 0xffff} {
+		toks = append(toks, []byte{byte(th >> 8), byte(th), 1, 2, 3, 4})
+	}
+	toks = append(toks, nil, []byte{0}, []byte{0, 0, 1, 2, 3}, []byte{0, 0, 1, 2, 3, 4, 5}, make([]byte, 32))
+	seq := uint64(r.Intn(1000))
+	for _, tok := range toks {
+		wire := mkData(r, 100+r.Intn(500))
+		if r.Intn(6) == 0 {
+			wire = mkInterest(r)
+		}
+		c.ops = append(c.ops, &lpOp{kind: "SEND", mtu: mtu, frag: true, seq: seq, tok: tok, mark: pickOptU(r), wire: wire})
+		seq += 400
+	}
+	c.after = func(c *lpCase, r *rand.Rand) []*lpOp {
+		type ref struct{ m, i int }
+		var all []ref
+		var per [][][]byte
+		for _, o := range c.ops {
+			if o.kind == "SEND" {
+				per = append(per, o.frames)
+			}
+		}
+		for m, fs := range per {
+			for i := range fs {
+				all = append(all, ref{m, i})
+			}
+		}
+		if r.Intn(2) == 0 {
+			r.Shuffle(len(all), func(i, j int) { all[i], all[j] = all[j], all[i] })
+		}
+		res := make([]*lpOp, len(all))
+		for k, x := range all {
+			res[k] = &lpOp{kind: "RECV", frame: per[x.m][x.i]}
+			c.order = append(c.order, fmt.Sprintf("%d.%d", x.m, x.i))
+		}
+		return res
+	}
+	return c
+}
+
 // genAllPermCases: a fixed set of messages (2 or 3, two to three fragments each, at most maxFrames frames in total) and
 // one case per permutation of all their frames: every arrival order, not a sample.
 func genAllPermCases(r *rand.Rand, idx int, maxFrames int) []*lpCase {
@@ -650,9 +703,9 @@ func genAllPermCases(r *rand.Rand, idx int, maxFrames int) []*lpCase {
 		if m == 0 && nmsg == 2 && maxFrames >= 5 {
 			nf = 3
 		}
-		lo, hi := mtu-15, 2*(mtu-34)
+		lo, hi := mtu-8, 2*(mtu-34)-2
 		if nf == 3 {
-			lo, hi = 2*(mtu-34)+1, 3*(mtu-34)
+			lo, hi = 2*(mtu-34)+4, 3*(mtu-34)-2
 		}
 		wire := mkData(r, lo+r.Intn(hi-lo+1))
 		tok := []byte{0, byte(m % 2), 9, 9, 9, byte(m)}
@@ -1165,6 +1218,16 @@ func TestLpTrace(t *testing.T) {
 			}
 			for i := 0; i < nh; i++ {
 				cases = append(cases, genHistCase(r, i, thorough))
+			}
+		}
+		// PIT token kinds x thread counts (exactly-once dispatch)
+		if nperm > 0 {
+			nd := 8
+			if thorough {
+				nd = 200
+			}
+			for i := 0; i < nd; i++ {
+				cases = append(cases, genDispatchCase(r, i))
 			}
 		}
 		// every permutation of the frames of a small set of messages
